@@ -38,11 +38,19 @@ def _exchange_on(member_suffix, kind):
     return inputs
 
 
+def _fifo_head(fn):
+    """MutexImpl<FIFO, Batching>::GetHead: with FIFO the returned chain must run from the oldest waiter to the newest"""
+    return 'rev' if fn.cta and fn.cta[0] in ('true', '1') else None
+
+
 SITES = [
-    # (qualified name, inputs, description of the exit obligation)
+    # (qualified name, inputs, description of the exit obligation, finishers that must run oldest first,
+    #  direction the returned chain must have)
     ('yaclib::detail::MutexImpl::GetHead', _exchange_on('::_sender', 'list'),
-     'every waiter taken from _sender stays reachable from the head that GetHead returns'),
-    ('yaclib::Strand::Call', _exchange_on('::_jobs', 'list'), 'every job of the batch is Called exactly once'),
+     'every waiter taken from _sender stays reachable from the head that GetHead returns; with FIFO=true the returned '
+     'chain runs from the oldest waiter to the newest', (), _fifo_head),
+    ('yaclib::Strand::Call', _exchange_on('::_jobs', 'list'),
+     'every job of the batch is Called exactly once, in the order the jobs were pushed', ('Call',), None),
     ('yaclib::Strand::Drop', _exchange_on('::_jobs', 'list'), 'every job of the batch is Dropped exactly once'),
     ('yaclib::(anonymous namespace)::SetImpl', _exchange_on('*', 'maybe-list'),
      'every waiter of the event is Called exactly once'),
@@ -55,18 +63,38 @@ SITES = [
 
 def check(ctx, fb, rule, only=None, minimum_sites=1):
     n = 0
-    for qn, inputs, oblig in SITES:
+    for site in SITES:
+        qn, inputs, oblig = site[:3]
+        ordered = site[3] if len(site) > 3 else ()
+        want_dir = site[4] if len(site) > 4 else None
         if only is not None and not only(qn):
             continue
         for f in sorted(fb.by_qn(qn), key=lambda f: f.full):
             if f.cfg is None:
                 continue
-            a = shape.Analysis(fb, inputs, _is_helper, NEXT)
+            a = shape.Analysis(fb, inputs, _is_helper, NEXT, ordered_finishers=ordered)
             key = 'R-SHAPE %s' % qn
             try:
                 exits = a.check_function(f)
             except shape.Unsupported as e:
                 ctx.broken('R-SHAPE %s: %s' % (f.full, e))
+            need = want_dir(f) if want_dir else None
+            undecided = False
+            if need and not a.problems:  # a chain that loses or cycles nodes is reported as such, not as an order issue
+                for h1, rv in exits:
+                    if not rv:
+                        continue
+                    d = h1.direction_of(rv)
+                    if d in ('single', need):
+                        continue
+                    if d == 'mixed':
+                        undecided = True
+                        continue
+                    a.problems.setdefault(('order', f.where), shape.Problem(
+                        'order', f.where, 'the returned chain runs from the newest entry to the oldest although this '
+                        'instantiation promises arrival order (FIFO): waiters are granted the lock in reverse order'))
+                if undecided and not a.problems:
+                    ctx.broken('R-SHAPE %s: the direction of the returned chain cannot be established' % f.full)
             n += 1
             ctx.instance(rule, key + ' :: ' + f.full[:120],
                          dict(function=f.full[:160], abstract_states=a.nstates, exits=len(exits), obligation=oblig))
